@@ -368,6 +368,44 @@ def r7(fx):
             yield o
 
 
+@rule('C15', 'R8', 4, 'equal arguments carried by distinct objects give the same segments: add_segment merges parts by the value of mode and encoding, not by object identity')
+def r8(fx):
+    from .common import modes
+    from .models import SegModel, encoder_env
+    from ..interp import Interp, FuncVal
+    fn = fx.fn('encoder', 'Segments.add_segment')
+    md = modes(fx)
+    it = Interp()
+
+    def seg_ctor(bits, char_count, mode, encoding=None):
+        return tuple.__new__(SegModel, (list(bits), char_count, mode, encoding))
+    genv = encoder_env(fx.forest, it, _Segment=seg_ctor)
+    add = FuncVal(fn, genv, it)
+
+    class Self:
+        _model = ('segments', 'bit_length', 'modes')
+
+        def __init__(self):
+            self.segments, self.bit_length, self.modes = [], 0, []
+
+    def fresh(x):
+        # an equal value in an object of its own (what a caller gets from a parser, a split or a decode)
+        if isinstance(x, str):
+            return ''.join(list(x)) if len(x) > 1 else x
+        return x
+    for title, mode, enc in (('byte parts with encoding "utf-8"', md['byte'], 'utf-8'), ('byte parts with encoding "iso-8859-15"', md['byte'], 'iso-8859-15'),
+                             ('byte parts without encoding', md['byte'], None), ('kanji parts', md['kanji'], None)):
+        shapes = []
+        for distinct in (False, True):
+            me = Self()
+            e1, e2 = enc, (fresh(enc) if distinct else enc)
+            add(me, tuple.__new__(SegModel, ([1] * 16, 2, mode, e1)))
+            add(me, tuple.__new__(SegModel, ([0] * 8, 1, mode, e2)))
+            shapes.append([(len(s.bits), s.char_count, s.mode, s.encoding) for s in me.segments])
+        yield ob(f'two {title}: the same segments whether the two encodings are one object or two equal objects', shapes[0] == shapes[1], fn,
+                 got=shapes[1], want=shapes[0])
+
+
 def stateless(fx, prop):
     """Shared rule: the functions a property is anchored in, and everything they call, keep no state between calls:
     no write to a module-level object (directly, through an alias or a callee), no memoised results, no mutable
